@@ -60,6 +60,22 @@ D = {
  "C20a": ("prompt line buffer hoisted out of the loop without clear()", "a print/garbage command followed by another command at the same prompt"),
  "C20b": ("same change as C15a, judged through C20", "prompt command `print mem 1048575 : 1` during stepping"),
  "C20c": ("read error at the prompt `continue`s instead of returning", "stdin on which every read fails (a directory)"),
+ "C01d": ("assembler emits `op byte <label>, imm` with the `word` keyword", "byte data-label destination with an immediate: carry/borrow out of the byte, or a non-zero neighbouring byte"),
+ "C02d": ("assembler maps upper-case `SAR` to `shr`", "spelling `SAR`, operand with its sign bit set"),
+ "C03d": ("word MUL no longer clears OF when the product fits", "OF=1 on entry and a product below 65536"),
+ "C04d": ("assembler drops a `ds` override on register-indirect operands", "source-level `ds[bp]` with SS != DS (same change as C05d)"),
+ "C05d": ("assembler drops a `ds` override on register-indirect operands", "source-level `ds[bp]` with SS != DS"),
+ "C06d": ("driver ends the run when a jump lands on its own line unless the line starts with `loop `", "taken self-targeting LOOPE/LOOPNE through the real driver"),
+ "C07d": ("assembler maps upper-case `REPNZ` to `repz`", "spelling `REPNZ` with CX >= 2"),
+ "C08d": ("call refuses more than 128 stacked returns", "recursion deeper than 128 or > 128 abandoned frames"),
+ "C09d": ("same change as C09c", "see C09c"),
+ "C10d": ("same change as C14a, judged through C10", "byte data-label destination and an immediate <= -129 (Internal Error)"),
+ "C12d": ("loader `dw [n]`: (n << 1) in u16 for fill and counter", "n == 32768 over earlier non-zero data"),
+ "C13d": ("a single parameter named `_` is not substituted", "macro(_) whose body uses `_`, used with a real argument"),
+ "C14d": ("labelled `dw \"\"` returns before the label is typed DATA", "jump to / `start` as the label of an empty wide string"),
+ "C15d": ("prompt condition rewritten as `idx <= len - 2`", "-i on a program without instructions"),
+ "C17d": ("`print mem : n` masks n to 16 bits", "DS-relative dump longer than 64 KiB"),
+ "C18d": ("INT 21h/0Ah with capacity 0 returns before reading the line", "capacity 0 followed by another console read in the same run"),
 }
 rows = []
 for d in sorted(glob.glob(os.path.join(ROOT, "seeded", "*"))):
